@@ -34,16 +34,6 @@ impl MemoryFS {
             handle: Arc::new(RwLock::new(MemoryFsImpl::new())),
         }
     }
-
-    fn ensure_has_parent(&self, path: &str) -> VfsResult<()> {
-        let separator = path.rfind('/');
-        if let Some(index) = separator {
-            if self.exists(&path[..index])? {
-                return Ok(());
-            }
-        }
-        Err(VfsErrorKind::Other("Parent path does not exist".into()).into())
-    }
 }
 
 impl Default for MemoryFS {
@@ -191,8 +181,9 @@ impl FileSystem for MemoryFS {
     }
 
     fn create_dir(&self, path: &str) -> VfsResult<()> {
-        self.ensure_has_parent(path)?;
-        let map = &mut self.handle.write().unwrap().files;
+        let mut handle = self.handle.write().unwrap();
+        handle.ensure_has_parent(path)?;
+        let map = &mut handle.files;
         let entry = map.entry(path.to_string());
         match entry {
             Entry::Occupied(file) => {
@@ -230,10 +221,10 @@ impl FileSystem for MemoryFS {
     }
 
     fn create_file(&self, path: &str) -> VfsResult<Box<dyn SeekAndWrite + Send>> {
-        self.ensure_has_parent(path)?;
         let content = Arc::new(Vec::<u8>::new());
         {
             let mut handle = self.handle.write().unwrap();
+            handle.ensure_has_parent(path)?;
             if let Some(file) = handle.files.get(path) {
                 ensure_file(file)?;
             }
@@ -360,6 +351,16 @@ impl MemoryFsImpl {
             },
         );
         Self { files }
+    }
+
+    fn ensure_has_parent(&self, path: &str) -> VfsResult<()> {
+        let separator = path.rfind('/');
+        if let Some(index) = separator {
+            if self.files.contains_key(&path[..index]) {
+                return Ok(());
+            }
+        }
+        Err(VfsErrorKind::Other("Parent path does not exist".into()).into())
     }
 }
 
